@@ -108,55 +108,7 @@ func (a *An) c05CounterTable() {
 			R.Check(ok, rule, key, fmt.Sprintf("counter test outcome for %s: accept=%v", ord.name, ord.accept), a.C.Pos(fn.Pos()), detail)
 		}
 	}
-	// findCounterFor matches on both ids
-	if ff := a.MustFn("(*counterHistory).findCounterFor"); ff != nil {
-		n := 0
-		for _, r := range a.returnsOf(ff) {
-			if _, isAlloc := r.Results[0].(*ssa.Alloc); isAlloc {
-				continue // the freshly created record
-			}
-			n++
-			fs := a.F.LocalAt(r)
-			okBoth := false
-			var have []string
-			for _, f := range fs.List() {
-				if strings.HasPrefix(f, "passed:(") && strings.Contains(f, " == ") {
-					have = append(have, f)
-				}
-			}
-			hasOur, hasTheir := false, false
-			for _, f := range have {
-				if strings.Contains(f, "$ourKeyID") && strings.Contains(f, ".ourKeyID") {
-					hasOur = true
-				}
-				if strings.Contains(f, "$theirKeyID") && strings.Contains(f, ".theirKeyID") {
-					hasTheir = true
-				}
-			}
-			okBoth = hasOur && hasTheir
-			R.Check(okBoth, rule, "findCounterFor|match-both", "an existing record is returned only when both key ids match", a.C.InstrPos(r), "equalities passed: "+strings.Join(have, "; "))
-		}
-		R.Check(n >= 1, rule, "findCounterFor|lookup", "findCounterFor returns existing records", a.C.Pos(ff.Pos()), "no return of an existing record")
-		// a new record carries the requested ids
-		for _, b := range ff.Blocks {
-			for _, in := range b.Instrs {
-				st, ok := in.(*ssa.Store)
-				if !ok {
-					continue
-				}
-				if fa, ok := st.Addr.(*ssa.FieldAddr); ok {
-					if _, isAlloc := fa.X.(*ssa.Alloc); isAlloc {
-						switch fieldOf(fa).Name() {
-						case "ourKeyID":
-							a.TermIs(rule, "findCounterFor|new-our", "new record our id", st, st.Val, "$ourKeyID")
-						case "theirKeyID":
-							a.TermIs(rule, "findCounterFor|new-their", "new record their id", st, st.Val, "$theirKeyID")
-						}
-					}
-				}
-			}
-		}
-	}
+	a.counterRecordLookup(rule)
 	R.Floor(rule, 8)
 }
 
@@ -315,4 +267,60 @@ func predicateCalls(fn *ssa.Function) []*ssa.Call {
 		}
 	}
 	return out
+}
+
+// counterRecordLookup: the counter records are kept per pair of key ids: an existing record is handed out only when both
+// ids match, a new one carries the ids asked for. (A record shared between pairs makes the first message under a new
+// pair look like a replay: a genuine message is lost.)
+func (a *An) counterRecordLookup(rule string) {
+	R := a.R
+	// findCounterFor matches on both ids
+	if ff := a.MustFn("(*counterHistory).findCounterFor"); ff != nil {
+		n := 0
+		for _, r := range a.returnsOf(ff) {
+			if _, isAlloc := r.Results[0].(*ssa.Alloc); isAlloc {
+				continue // the freshly created record
+			}
+			n++
+			fs := a.F.LocalAt(r)
+			okBoth := false
+			var have []string
+			for _, f := range fs.List() {
+				if strings.HasPrefix(f, "passed:(") && strings.Contains(f, " == ") {
+					have = append(have, f)
+				}
+			}
+			hasOur, hasTheir := false, false
+			for _, f := range have {
+				if strings.Contains(f, "$ourKeyID") && strings.Contains(f, ".ourKeyID") {
+					hasOur = true
+				}
+				if strings.Contains(f, "$theirKeyID") && strings.Contains(f, ".theirKeyID") {
+					hasTheir = true
+				}
+			}
+			okBoth = hasOur && hasTheir
+			R.Check(okBoth, rule, "findCounterFor|match-both", "an existing record is returned only when both key ids match", a.C.InstrPos(r), "equalities passed: "+strings.Join(have, "; "))
+		}
+		R.Check(n >= 1, rule, "findCounterFor|lookup", "findCounterFor returns existing records", a.C.Pos(ff.Pos()), "no return of an existing record")
+		// a new record carries the requested ids
+		for _, b := range ff.Blocks {
+			for _, in := range b.Instrs {
+				st, ok := in.(*ssa.Store)
+				if !ok {
+					continue
+				}
+				if fa, ok := st.Addr.(*ssa.FieldAddr); ok {
+					if _, isAlloc := fa.X.(*ssa.Alloc); isAlloc {
+						switch fieldOf(fa).Name() {
+						case "ourKeyID":
+							a.TermIs(rule, "findCounterFor|new-our", "new record our id", st, st.Val, "$ourKeyID")
+						case "theirKeyID":
+							a.TermIs(rule, "findCounterFor|new-their", "new record their id", st, st.Val, "$theirKeyID")
+						}
+					}
+				}
+			}
+		}
+	}
 }
